@@ -15,6 +15,7 @@ class Report:
         self.violations = []    # dicts
         self.rules = {}         # rule -> {'desc':..., 'instances': n, 'min': m}
         self.notes = []
+        self.broken = []         # rules that lost their anchor (isolated): the run can no longer pass
         self.assumptions = []
         self.functions = set()
         self.extra = {}
@@ -58,8 +59,8 @@ class Report:
         failing = {v['rule'] for v in self.violations}
         for rid, r in self.rules.items():
             # a rule that reports a violation is not vacuous: the vacuity guard protects passes only
-            if r['instances'] < r['min'] and rid not in failing:
-                raise AnalysisBroken('rule %s matched %d instances, fewer than the %d confirmed on the pinned tree (vacuity guard)' % (rid, r['instances'], r['min']))
+            if r['instances'] < r['min'] and rid not in failing and not self.broken:
+                self.broken.append('rule %s matched %d instances, fewer than the %d confirmed on the pinned tree (vacuity guard)' % (rid, r['instances'], r['min']))
         known = []
         kf_path = os.path.join(VERIF, 'known_findings.json')
         if os.path.exists(kf_path):
@@ -76,6 +77,13 @@ class Report:
             else:
                 new.append(v)
         rc = 0
+        if self.broken:
+            # a rule lost its anchor: the run is analysis-broken (exit 2), never a pass -- and never a violation either: what the other
+            # rules report next to a vanished anchor is often the same vanished name seen from another side (a renamed validation
+            # function makes "no validation dominates the return" true).  The rules still run isolated so that the message names all of them.
+            for v in new[:5]:
+                print('note: with the anchor(s) lost, rule %s would report: %s' % (v['rule'], v['instance']))
+            raise AnalysisBroken('; '.join(self.broken[:3]))
         # stale replay files of earlier runs of this property would mislead: drop them
         import glob
         for old in glob.glob(os.path.join(OUTDIR, 'replay', '%s-*.json' % self.pid)):
